@@ -772,7 +772,13 @@ func c04NativeFuzz(h *c04Run) {
 							os.RemoveAll("testdata/fuzz/FuzzC04")
 							return
 						}
-						r.Note("go test -fuzz lost a worker on %q, but the input replays without a fatal error alone", src)
+						// the engine kills a worker whose single execution takes longer than its own limit (a slow but
+						// terminating input on a loaded machine): alone, under the property's deadline, the input is fine -
+						// the search is inconclusive, which is not a broken tie
+						r.Note("go test -fuzz lost a worker on %q; replayed alone in the child process the input returns within the deadline without a fatal error (search inconclusive)", src)
+						r.Count("fuzz:lost-worker-replayed-ok", 1)
+						os.RemoveAll("testdata/fuzz/FuzzC04")
+						return
 					}
 				}
 			}
